@@ -9,7 +9,7 @@ e = {"property": prop, "status": status, "signature": sig, "what_fails": what, "
      "commit": None if commit == '-' else commit}
 if status == 'fixed':
     e["line"] = f"fixed: property={prop} {commit} {what}"
-L = [x for x in L if not (x["property"] == prop and x["signature"] == sig)]
+L = [x for x in L if not (x["property"] == prop and x["signature"] == sig and x.get("commit") == e["commit"])]
 L.append(e)
 json.dump(L, open(p, 'w'), indent=1)
 print("findings:", len(L))
